@@ -9,7 +9,7 @@
 (*               class c serialises to in key form f; NoRec = no record.   *)
 (*               f = 1 is the canonical key (type byte, IP, mask of the    *)
 (*               IP's own length).  f = 2 is the second key an IPv4        *)
-(*               address can end up under: encodeIPNet (codec.go:21)       *)
+(*               address could end up under: encodeIPNet (codec.go)        *)
 (*               shortens an IPv4-mapped IP to 4 bytes but writes the mask *)
 (*               as given, so a 16-byte mask (net.ParseCIDR of             *)
 (*               "::ffff:a.b.c.d/128", or ParseIPNet(addr, CIDRMask(128,   *)
@@ -19,16 +19,16 @@
 (*                                                                         *)
 (* Every store call is one bbolt read-write transaction (walletdb.Update), *)
 (* so each call is one action:                                             *)
-(*   Ban(c,g,d,r)   store.go:119 BanIPNet -> addBannedIPNet :176           *)
+(*   Ban(c,g,d,r)   store.go BanIPNet -> addBannedIPNet                    *)
 (*                  expiry := now + d, unconditional Put of both buckets   *)
-(*   Unban(c,g)     store.go:145 UnbanIPNet -> removeBannedIPNet :247      *)
-(*   Status(c,g)    store.go:191 Status: fetchStatus :229, and if          *)
+(*   Unban(c,g)     store.go UnbanIPNet -> removeBannedIPNet               *)
+(*   Status(c,g)    store.go Status: fetchStatus, and if                   *)
 (*                  !now.Before(expiry) the record is DELETED (lazy        *)
-(*                  delete, :215) and the zero Status returned             *)
-(*   Reopen         db closed, reopened, NewStore (:76; buckets exist)     *)
+(*                  delete) and the zero Status returned                   *)
+(*   Reopen         db closed, reopened, NewStore (buckets exist)          *)
 (*   Tick           time passes                                            *)
 (* The spelling group g only selects the key form; the concrete string is  *)
-(* chosen by the driver.  ParseIPNet (util.go:26) is part of Ban/Unban/    *)
+(* chosen by the driver.  ParseIPNet (util.go) is part of Ban/Unban/       *)
 (* Status here: the driver always goes from text to *net.IPNet through it  *)
 (* (or through net.ParseCIDR for the CIDR spellings).                      *)
 (***************************************************************************)
